@@ -2,7 +2,7 @@
    iteration orders (runs that take the revert branch of balance() excluded, as in C08). *)
 From Coq Require Import List ZArith Bool Lia Permutation.
 From SV Require Import C08.Common C08.RoundRobin C08.Sticky C08.Valid C08.ProofsBase C08.ProofsStickyBase
-  C08.ProofsStickyEnv C08.ProofsStickyKeep C08.ProofsStickyMove C08.ProofsStickySort C08.ProofsSticky C13.Model C13.ProofsRR.
+  C08.ProofsStickyEnv C08.ProofsStickyKeep C08.ProofsStickyMove C08.ProofsStickySort C08.ProofsStickySorted C08.ProofsSticky C13.Model C13.ProofsRR.
 Import ListNotations.
 Open Scope Z_scope.
 
@@ -52,42 +52,6 @@ Proof.
   destruct (reassign_pass fx prev c2p p2c parts s false) as [[s1 m1] e1] eqn:Ep.
   destruct e1, m1; try discriminate; [eapply IH; eassumption|].
   injection E as <- _. destruct (pass_unmodified _ _ _ _ _ _ _ _ Ep) as [-> _]. exact Ep.
-Qed.
-
-Lemma last_indep_nonempty : forall {A} (x : A) l d d', last (x :: l) d = last (x :: l) d'.
-Proof.
-  intros A x l. revert x. induction l as [|y l IH]; intros x d d'; [reflexivity|].
-  change (last (x :: y :: l) d) with (last (y :: l) d). change (last (x :: y :: l) d') with (last (y :: l) d'). apply IH.
-Qed.
-
-(* ---- sort_members orders by size ---- *)
-Fixpoint size_sorted (ca : asg) (l : list str) : Prop :=
-  match l with
-  | [] => True
-  | a :: r => (match r with [] => True | b :: _ => len (ca_get ca a) <= len (ca_get ca b) end) /\ size_sorted ca r
-  end.
-Lemma size_sorted_insert : forall ca x l, size_sorted ca l -> size_sorted ca (insert (member_less ca) x l).
-Proof.
-  intros ca x. induction l as [|y l IH]; intro H; [simpl; auto|]. cbn [insert].
-  destruct (member_less ca y x) eqn:E.
-  - destruct H as [H1 H2]. specialize (IH H2). cbn [size_sorted]. split; [|exact IH].
-    assert (Hyx : len (ca_get ca y) <= len (ca_get ca x)).
-    { unfold member_less in E. destruct (len (ca_get ca y) =? len (ca_get ca x)) eqn:E2; [apply Z.eqb_eq in E2; lia | apply Z.ltb_lt in E; lia]. }
-    destruct l as [|z l]; cbn [insert]; [exact Hyx|]. destruct (member_less ca z x); [exact H1 | exact Hyx].
-  - cbn [size_sorted]. split; [|exact H]. unfold member_less in E.
-    destruct (len (ca_get ca y) =? len (ca_get ca x)) eqn:E2; [apply Z.eqb_eq in E2; lia | apply Z.ltb_ge in E; lia].
-Qed.
-Lemma size_sorted_sort : forall ca l, size_sorted ca (sort (member_less ca) l).
-Proof. intros ca. induction l as [|x l IH]; [exact I|]. cbn [sort]. now apply size_sorted_insert. Qed.
-Lemma size_sorted_bounds : forall ca l f, size_sorted ca (f :: l) ->
-  forall m, In m (f :: l) -> len (ca_get ca f) <= len (ca_get ca m) <= len (ca_get ca (last (f :: l) f)).
-Proof.
-  intros ca. induction l as [|x l IH]; intros f H m Hm.
-  - destruct Hm as [<-|[]]. simpl. lia.
-  - destruct H as [H1 H2]. change (last (f :: x :: l) f) with (last (x :: l) f). rewrite (last_indep_nonempty x l f x).
-    destruct Hm as [E|Hm].
-    + subst m. specialize (IH x H2 x (or_introl eq_refl)). lia.
-    + specialize (IH x H2 m Hm). lia.
 Qed.
 
 (* ---- owner_of, sizes ---- *)
@@ -202,7 +166,7 @@ Theorem sticky_balanced : forall fuel o ms ts p, wf_members ms -> wf_topics ts -
 Proof.
   intros fuel o ms ts p Wm Wt. unfold sticky_plan_full.
   destruct (sticky_prepare o ms ts) as [pr|] eqn:Ep; [|discriminate].
-  destruct (sticky_prepare_ok o ms ts pr Wm Wt Ep) as [C1 C2 NW NF DJ FP KY ID RI PA PALL].
+  destruct (sticky_prepare_ok o ms ts pr Wm Wt Ep) as [C1 C2 NW NF DJ FP KY ID RI PA PALL _].
   set (W := akeys (s_ca (pr_s0 pr))) in *.
   unfold run_perform.
   destruct (perform fuel true (pr_prev pr) (pr_c2p pr) (pr_p2c pr) (pr_parts pr) (pr_s0 pr) false) as [[s' pf] e] eqn:Er.
